@@ -10,6 +10,7 @@ Directives (each on its own line, leading whitespace ignored):
   //@  invariant ... / decreases ...          the `//@  ` lines (prefix stripped) are inserted between the loop
   //@END                                      header and its `{`
   //@SUB "<from>" -> "<to>"                   literal rewrite inside the body (must match; listed in evidence)
+  //@START ... //@END                          insert the `//@  ` lines right after the opening brace of the body
   //@AT "<text>" before|after                 insert the following `//@  ` lines before/after the first body line
   //@END                                      containing <text>
   /*@EXPR file=.. const=NAME [ctx=..]@*/      inline: initialiser expression of a `const` item, verbatim
@@ -142,6 +143,14 @@ def splice(tmpl_path, repo_root):
                         i += 1
                     i += 1
                     ats.append((mm.group(1), mm.group(2), buf))
+                elif t.startswith('//@START'):
+                    i += 1
+                    buf = []
+                    while not src[i].strip().startswith('//@END'):
+                        buf.append(re.sub(r'^\s*//@ ?', '', src[i]))
+                        i += 1
+                    i += 1
+                    ats.append((None, 'start', buf))
                 else:
                     break
             f = find_fn(repo_text(a['file']), a['fn'], a.get('ctx'), int(a.get('index', 0)))
@@ -194,6 +203,16 @@ def splice(tmpl_path, repo_root):
             blines = [b[7:] if b.startswith('/*@c*/ ') else b for b in blines]
             # AT insertions
             for pat, where, buf in ats:
+                if where == 'start':
+                    # right after the opening brace of the body (line 0 holds `{`)
+                    first = blines[0]
+                    bpos = first.index('{') + 1
+                    rest = first[bpos:]
+                    blines[0] = first[:bpos]
+                    ins = list(buf) + ([rest] if rest.strip() else [])
+                    blines[1:1] = ins
+                    fixed[1:1] = [('tmpl', tmpl_line)] * len(buf) + ([fixed[0]] if rest.strip() else [])
+                    continue
                 idx = None
                 for k, bl in enumerate(blines):
                     if fixed[k][0] == 'repo' and norm(pat) in norm(bl):
